@@ -2,7 +2,7 @@
 from ..common import Sub
 from ..e1 import engine, gen, oracles, reduce
 
-RULE = ("(programs) yield-only programs with tasks awaited by several parents, already-computed futures yielded again, orphans (created, never yielded), empty "
+RULE = ("(programs / with-sync-reentry) yield-only programs, and programs whose tasks also call synchronously into asynq (re-entry comb), with tasks awaited by several parents, already-computed futures yielded again, orphans (created, never yielded), empty "
         "structures, failures; non-trivial = (a shared/re-yielded future, or a yield of >= 3 sibling tasks of unequal length) and >= 2 flushes. "
         "(deep-chain) chains of d awaiting tasks, d up to 1 500 (quick) / 100 000 (thorough), far beyond the recursion limit; every case is non-trivial. "
         "distinct = distinct case JSON")
@@ -13,6 +13,11 @@ ASSUMPTIONS = ["start order is asserted only for tasks first scheduled by a yiel
 def strategy(tier):
     return gen.programs(gen.Cfg(max_tasks=14 if tier == "quick" else 40, sync=False, ctx=(), dag=True, orphans=True,
                                 shapes=("chain", "tree", "comb", "comb", "diamond", "diamond", "stagger", "free", "free")))
+
+
+def strategy_sync(tier):
+    return gen.programs(gen.Cfg(max_tasks=12 if tier == "quick" else 30, sync=True, ctx=(), dag=True, reyield=True, convs=("call", "value", "wrapper"),
+                                shapes=("reentry", "reentry", "reentry", "comb", "free", "free", "diamond")))
 
 
 def unequal_siblings(prog):
@@ -51,7 +56,8 @@ def check(prog, ctx):
     ctx.label("orphan", any(rec.how == "mk" and not rec.yielded for rec in env.recs.values()))
     ctx.label("flushes>=2", len(env.flushes) >= 2)
     ctx.label("shape=" + prog.get("shape", "?"))
-    ctx.nontrivial(prog, (shared or uneq) and len(env.flushes) >= 2)
+    ctx.label("sync-reentry", not env.yield_only)
+    ctx.nontrivial(prog, (shared or uneq or not env.yield_only) and len(env.flushes) >= 2)
     return viol
 
 
@@ -135,4 +141,5 @@ def check_deep(case, ctx):
 
 
 SUBS = [Sub("programs", check, strategy=strategy, reduce=reduce.candidates, examples={"quick": 6000, "thorough": 300000}),
+        Sub("with-sync-reentry", check, strategy=strategy_sync, reduce=reduce.candidates, examples={"quick": 4000, "thorough": 150000}),
         Sub("deep-chain", check_deep, enumerate=deep_cases)]
